@@ -33,6 +33,7 @@ type c18Case struct {
 	TLS       string            `json:"tls"` // disable | certificate
 	HostSel   string            `json:"host_selection"`
 	QueryKey  bool              `json:"query_token_key"`
+	EmptyKey  bool              `json:"query_token_key_present_but_empty,omitempty"` // (only without a key) the setting is there, its value is the empty string
 	NHosts    int               `json:"hosts"`
 	Keytab    bool              `json:"keytab"`
 	TokenAuth string            `json:"token_auth"` // true | false | default
@@ -52,6 +53,7 @@ func genC18(t *rapid.T) c18Case {
 	// running signed host selection without a key (probed below on instances that start)
 	c.HostSel = rapid.SampledFrom([]string{"roundrobin", "signed", "signed", "signed", "unsigned", "any", "Signed", "SIGNED", "signed ", "RoundRobin"}).Draw(t, "hostsel")
 	c.QueryKey = rapid.Bool().Draw(t, "querykey")
+	c.EmptyKey = !c.QueryKey && rapid.Bool().Draw(t, "emptykey")
 	c.NHosts = rapid.SampledFrom([]int{0, 1, 1, 2, 3}).Draw(t, "nhosts")
 	c.Keytab = rapid.Bool().Draw(t, "keytab")
 	c.TokenAuth = rapid.SampledFrom([]string{"true", "false", "default"}).Draw(t, "tokenauth")
@@ -163,6 +165,9 @@ func (c c18Case) build() (gwproc.Config, []string) {
 	put("hostsel", "Server", "HostSelection", "RDPGW_SERVER__HOST_SELECTION", c.HostSel, decoySel)
 	if c.QueryKey {
 		put("querykey", "Security", "QueryTokenSigningKey", "RDPGW_SECURITY__QUERY_TOKEN_SIGNING_KEY", testQueryKey, "another-query-signing-key-32-ch!")
+	} else if c.EmptyKey {
+		// no key: an empty value in the file, an empty variable, or an empty variable blanking a key from the file
+		put("querykey", "Security", "QueryTokenSigningKey", "RDPGW_SECURITY__QUERY_TOKEN_SIGNING_KEY", "", "another-query-signing-key-32-ch!")
 	}
 	if c.NHosts > 0 {
 		var hs []string
